@@ -64,6 +64,25 @@ def readLines (lines : List Bytes) : LayerFile := lines.foldl readStep {}
 /-- ReadLayerFile on file content (scanner errors — lines over 64 KiB — not modelled) -/
 def readLayerFile (content : Bytes) : LayerFile := readLines (Mountinfo.scanLines content)
 
+/-- the lines as bufio.ScanLines cuts them, before the trailing CR is dropped -/
+def rawLines (text : Bytes) : List Bytes :=
+  let parts := splitOn 10 text
+  match parts.reverse with
+    | [] :: r => r.reverse
+    | _ => parts
+
+/-- bufio.Scanner's token limit: a line of this many bytes or more (CR included, LF not) ends
+    the reading with the error "token too long" -/
+def scanLimit : Nat := 65536
+
+/-- ReadLayerFile with the scanner's limit: the lines up to the first one the scanner cannot
+    hold; that one is logged as an error (one message) and nothing after it is read -/
+def readLayerFileScanner (content : Bytes) : LayerFile :=
+  let raw := rawLines content
+  let ok := raw.takeWhile (fun l => l.length < scanLimit)
+  let l := readLines (ok.map Mountinfo.dropCR)
+  if ok.length < raw.length then { l with nmsgs := l.nmsgs + 1 } else l
+
 def renderMount (kw : Bytes) (m : NeededMount) : Bytes :=
   kw ++ 32 :: m.fstype ++ 32 :: m.source ++ 32 :: m.mount ++ [10]
 
